@@ -383,12 +383,12 @@
         std::mem::forget(part);
     }
 
-// @h id=H15.r-k$k prop=C15 rep="k:0-7" quick="0-7" cap=600 mem=16 unwind=11 uw="read_dir_rec=3;FixR=30" stubs="Directory::from_reader -> fixed-shape reference parser (1 entry)" bounds="legal chain root -> leaf -> leaf -> tile entry over a stream that fails from operation index k = $k on (the fault-free walk has 6 stream operations: every fail-stop point 0..6 and one beyond is an instance)"
+// @h id=H15.r-k$k prop=C15 rep="k:0-3" quick="0-3" cap=600 mem=16 unwind=11 uw="read_dir_rec=3;FixR=30" stubs="Directory::from_reader -> fixed-shape reference parser (1 entry)" bounds="legal chain root -> leaf -> leaf -> tile entry over a stream in which every operation at or beyond stream position {0, L1, 2*L1, never}[k] fails (the fault hits the root, the first leaf, the second leaf, nothing)"
     /// a directory walk over a stream that starts failing returns an error - never a partial result reported as success
     #[kani::proof]
     #[kani::stub(crate::directory::Directory::from_reader, stub_from_reader1)]
     fn h15_r_walk_faults_k$k() {
-        let k: u32 = $k;
+        const AT: [u64; 4] = [0, L1 as u64, 2 * L1 as u64, u64::MAX];
         let ptr = |off: u64| [REntry { tile_id: 0, offset: off, length: L1 as u32, run_length: 0 }];
         let tile = [REntry { tile_id: 9, offset: 0, length: 3, run_length: 1 }];
         let mut img = [0u8; 3 * L1];
@@ -396,7 +396,7 @@
         put1(&mut img, L1, &ptr(2 * L1 as u64));
         put1(&mut img, 2 * L1, &tile);
         let mut rd = FixR::new(&img, (3 * L1) as u64);
-        rd.fail_from = k;
+        rd.fail_pos = AT[$k];
         let r = read_directories(&mut rd, Compression::None, (0, L1 as u64), 0, ..);
         match &r {
             Ok(m) => {
@@ -405,7 +405,7 @@
             }
             Err(_) => assert!(rd.failed),
         }
-        kani::cover!(r.is_ok() == (k >= 6));
+        kani::cover!(r.is_ok() == ($k == 3));
         kani::cover!(rd.ops >= 1);
         std::mem::forget(r);
     }
